@@ -623,13 +623,100 @@ pub fn check(c: &Case, _known: &Known) -> Outcome {
     out
 }
 
-pub fn replay_any(_c: &str, case: &Value, known: &Known) -> Option<Outcome> {
+// ---------------------------------------------------------------------------------------
+// Naming a prefix that ends in a take (all dialects, no execution): the row limits of the
+// statement - LIMIT / OFFSET / FETCH / TOP with their numbers - must be the same whether the prefix
+// is written inline, bound with `let`, or with `into`. Enumerated completely over prefix x
+// continuation x dialect; continuations contain no take or sort of their own, so the limits of the
+// prefix are all the limits there are.
+
+#[derive(Clone, Debug, Serialize, Deserialize)]
+pub struct TakePrefixCase {
+    pub prefix: String,
+    pub cont: String,
+    pub dialect: String,
+}
+
+pub fn take_prefix_cases() -> Vec<TakePrefixCase> {
+    let prefixes = [
+        "from t2 | take 3..", "from t2 | take 2..5", "from t2 | take 4", "from t2 | select {id, a} | take 4..", "from t2 | select {id, a} | take 2..6",
+        "from t2 | sort {id} | take 3..", "from t2 | sort {-a, id} | take 2..4", "from t2 | filter a > 1 | take 2..", "from t2 | derive {c = a + 1} | take 5..",
+        "from t2 | select {id, a} | filter a > 0 | take 1..3",
+    ];
+    let conts = [
+        "append t1", "append (from t1 | select {id, a})", "remove t1", "intersect (from t1 | select {id, a})", "filter a > 2", "derive {z = id + 1}",
+        "join side:left r = (from t1 | select {k = id}) (id == r.k)", "group {a} (aggregate {n = count this})", "select {id} | loop (filter id < 4 | select {id = id + 1})",
+        "select {a}", "aggregate {m = max id}",
+    ];
+    let mut v = vec![];
+    for p in prefixes {
+        for c in conts {
+            for d in ["generic", "postgres", "duckdb", "mssql", "mysql", "clickhouse", "bigquery", "sqlite"] {
+                v.push(TakePrefixCase { prefix: p.into(), cont: c.into(), dialect: d.into() });
+            }
+        }
+    }
+    v
+}
+
+fn row_limits(sql: &str) -> Vec<String> {
+    static RE: std::sync::OnceLock<regex::Regex> = std::sync::OnceLock::new();
+    let re = RE.get_or_init(|| regex::Regex::new(r"LIMIT \d+|OFFSET \d+|FETCH (?:FIRST|NEXT) \d+|TOP \(?\d+\)?").unwrap());
+    let mut v: Vec<String> = re.find_iter(sql).map(|m| m.as_str().to_string()).collect();
+    v.sort();
+    v
+}
+
+pub fn check_take_prefix(c: &TakePrefixCase, _known: &Known) -> Outcome {
+    let d = util::dialect_by_name(&c.dialect);
+    let spellings = [
+        ("inline", format!("{} | {}\n", c.prefix, c.cont)),
+        ("let", format!("let pre = ({})\nfrom pre | {}\n", c.prefix, c.cont)),
+        ("into", format!("{} | into pre\nfrom pre | {}\n", c.prefix, c.cont)),
+    ];
+    let mut out = Outcome::pass();
+    out.key = hash_of(&(&c.prefix, &c.cont, &c.dialect));
+    let mut seen: Vec<(&str, String, Vec<String>)> = vec![];
+    for (name, src) in &spellings {
+        match util::compile(src, d) {
+            Compiled::Sql(sql) => {
+                let l = row_limits(&sql);
+                seen.push((name, sql, l));
+            }
+            Compiled::Err(_) => {}
+            Compiled::Panic(_) => return Outcome::skip("compiler_panic").class("compiler_panic"),
+        }
+    }
+    if seen.len() < 2 {
+        return Outcome::skip("fewer than two spellings compile").class("rejected_by_compiler");
+    }
+    out.nontrivial = true;
+    out.classes.push(format!("take_prefix:{}", c.dialect));
+    for w in seen.windows(2) {
+        if w[0].2 != w[1].2 {
+            return Outcome::fail(
+                "naming a prefix with let / into changes the row limits of the statement",
+                json!({"prefix": c.prefix, "continuation": c.cont, "dialect": c.dialect,
+                       w[0].0: {"limits": w[0].2, "sql": w[0].1}, w[1].0: {"limits": w[1].2, "sql": w[1].1}}),
+            );
+        }
+    }
+    out.sample = Some(json!({"prefix": c.prefix, "continuation": c.cont, "dialect": c.dialect, "limits": seen[0].2}));
+    out
+}
+
+pub fn replay_any(check_name: &str, case: &Value, known: &Known) -> Option<Outcome> {
+    if check_name == "take-prefix-naming" {
+        let c: TakePrefixCase = serde_json::from_value(case.clone()).ok()?;
+        return Some(check_take_prefix(&c, known));
+    }
     let c: Case = serde_json::from_value(case.clone()).ok()?;
     Some(check(&c, known))
 }
 
 pub fn run(ctx: &Ctx) -> i32 {
     ctx.run_replays(|c, case| replay_any(c, case, &ctx.known));
+    ctx.enumerate("take-prefix-naming", take_prefix_cases(), |c| check_take_prefix(c, &ctx.known));
     ctx.tape_search("rewrites", ctx.n(30_000, 1_000_000), 450, gen_case, |c| check(c, &ctx.known));
     ctx.finish(
         "a generated base program P (default generator: recorded findings excluded by construction) and 1-3 rewrites at tape-chosen applicable sites: R1 let-extraction of a pipeline prefix (qualified references re-pointed), R2 the same with `into`, R3 abstraction of a derive/select expression into a user function over its column leaves (positional or piped argument, optional named parameter with default, optionally inside a module), R4 conjunctive filter split / merge of consecutive filters (never across window functions), R5 insertion of `filter true`, R6 moving the functions into a module and calling them by path. Oracle: both programs compile (required for R4/R5; other rewrites may leave the language's scoping rules and are then counted as rewrite_rejected), both run on SQLite, and the results are equal as multisets (columns aligned by name). non-trivial = the two SQL texts differ and the result is non-empty; distinct = (base, rewritten)",
